@@ -241,18 +241,13 @@ impl Prop for C07 {
     fn units(&self, tier: Tier) -> Vec<Unit> {
         let thorough = tier == Tier::Thorough;
         let mut units = vec![];
-        let tss: Vec<usize> = if thorough { (1..=8).collect() } else { vec![2, 4, 8] };
+        let tss: Vec<usize> = (1..=8).collect();
+        let _ = thorough;
         for t in targets() {
             for (pn, ptext) in prefixes() {
-                if !thorough && (pn == "same" || pn == "shrinks-a-lot") {
-                    continue;
-                }
                 for &ts in &tss {
                     for ht in [false, true] {
                         for (eolo, eou) in [(true, true), (true, false), (false, true), (false, false)] {
-                            if !thorough && ht && ts != 4 {
-                                continue;
-                            }
                             // a skipped node after an item whose line count changes: rustfmt mixes source and
                             // output line numbers there (known finding); explored at the default tab settings
                             // only, so that the one root cause is listed a dozen times, not hundreds
@@ -328,6 +323,16 @@ impl Prop for C07 {
                 if *l == 0 || *l > exp.len() {
                     problems.push(format!("{k} reported on line {l} which does not exist"));
                 }
+            }
+            // a reported trailing blank / overflow must set the flags the exit status is derived from
+            // (bin/main.rs: exit 1 iff operational || parsing || ...)
+            let any_tw = reported.iter().any(|(_, k)| k == "TrailingWhitespace");
+            let any_lo = reported.iter().any(|(_, k)| k == "LineOverflow");
+            if (any_tw || any_lo) && !o.flags[0] {
+                problems.push("diagnostic reported but the operational-error flag (exit status 1) is not set on line 0".to_string());
+            }
+            if any_tw && !o.flags[6] {
+                problems.push("trailing whitespace reported but the unformatted-code flag is not set on line 0".to_string());
             }
             // entries for other files
             for e in &o.entries {
